@@ -180,6 +180,13 @@ func (w *c09world) runCase(tw *traceWriter, kind, cred, reqAddrs string, preauth
 		w.kdc.pert = pert
 		if len(c.Devs) == 2 {
 			w.kdc.pert = &perturbation{Kind: kind, Field: "pair", Value: c.Devs[0][0] + "=" + c.Devs[0][1] + ";" + c.Devs[1][0] + "=" + c.Devs[1][1], once: true}
+			for _, d := range c.Devs {
+				if d[0] == "nonce" && d[1] == "earlier" {
+					// "the reply to an earlier request" is a whole other message: the KDC's earlier reply is sent as it was (the second
+					// deviation of the pair cannot be applied to it as well; a stale reply is to be refused whatever else it says)
+					w.kdc.pert = &perturbation{Kind: kind, Field: "nonce", Value: "earlier", once: true}
+				}
+			}
 		}
 		w.kdc.mu.Unlock()
 	}
